@@ -412,9 +412,14 @@ fn verdicts(g: &G, case: &Case, prop: &str) -> (Vec<(String, String)>, Judged) {
     let (mut v, j) = verdicts_raw(g, case, prop);
     // a grammar with a known-finding shape reports everything it shows under that shape's signature
     if let Some(tag) = g.meta.shape_tags.first() {
-        if !v.is_empty() {
-            let first = v[0].clone();
-            v = vec![(format!("{prop}.{tag}"), format!("[{}] {}", first.0, first.1))];
+        // what the shape explains: tree corruption explains anything observed on the grammar; the spinning loop only
+        // explains a run that makes no progress
+        let explains = |oracle: &str| tag != "return_without_consumption_in_loop" || oracle.ends_with("no_progress");
+        let (mut explained, others): (Vec<_>, Vec<_>) = v.into_iter().partition(|(o, _)| explains(o));
+        v = others;
+        if !explained.is_empty() {
+            let first = explained.remove(0);
+            v.insert(0, (format!("{prop}.{tag}"), format!("[{}] {}", first.0, first.1)));
         }
     }
     (v, j)
